@@ -31,7 +31,7 @@ type c19DPoPCase struct {
 
 func c19DPoPGen(t *rapid.T) c19DPoPCase {
 	return c19DPoPCase{
-		Header: c19x.GenPlan(t, []string{"alg", "typ", "jwk", "kid", "kty", "crv", "x", "y", "d", "crit"}),
+		Header: c19OptHeaderPlan(t, []string{"alg", "typ", "jwk", "kid", "kty", "crv", "x", "y", "d", "crit"}),
 		Claims: c19x.GenPlan(t, []string{"htm", "htu", "iat", "jti", "ath", "nonce", "exp", "nbf"}),
 		Sig:    rapid.SampledFrom([]string{c19x.SigValid, c19x.SigValid, c19x.SigValid, c19x.SigValid, c19x.SigValid, c19x.SigGarbage, c19x.SigEmpty}).Draw(t, "sig"),
 		Ser:    rapid.SampledFrom([]string{"compact", "compact", "compact", "compact", "compact", "compact", "compact", "flattened", "general1", "general2"}).Draw(t, "ser"),
@@ -94,4 +94,13 @@ func TestVerif_C19_DPoP(t *testing.T) {
 
 func TestVerifReplay_C19_DPoP(t *testing.T) {
 	h.Replay(t, "C19", "TestVerif_C19_DPoP", c19DPoPRun, h.PanicIsViolation(), h.Deadline(10*time.Second))
+}
+
+// c19OptHeaderPlan mutates the JOSE header in one case out of three only: most header mutations die in the JOSE library,
+// the claims are what nuts-node code interprets.
+func c19OptHeaderPlan(t *rapid.T, keys []string) c19x.Plan {
+	if rapid.IntRange(0, 2).Draw(t, "header.mutated") != 0 {
+		return c19x.Plan{}
+	}
+	return c19x.GenPlan(t, keys)
 }
